@@ -27,7 +27,7 @@ STUB = ["tqdm replaced by a recording progress callback"]
 X64 = False  # DetectorConvergenceCondition mixes int32/int64 slice indices when jax_enable_x64 is on (library limitation); run in float32
 STATE_TOL = 2e-5
 KNIFE = 1e-3
-ASSUMPTIONS = ["float32 (x64 off); state equality 2e-5 relative; conditions whose metric comes within 1e-3 (relative) of the threshold are skipped","first-stop step computed from the documented metric on the driver's plain trajectory (independent NumPy re-statement for the detector metric, library compute_energy for the energy metric)"]
+ASSUMPTIONS = ["float32 (x64 off); state equality 2e-5 relative (reduced field / flux records relative to the same reduction of |x_i|, taken from an unreduced companion detector); conditions whose metric comes within 1e-3 (relative) of the threshold are skipped","first-stop step computed from the documented metric on the driver's plain trajectory (independent NumPy re-statement for the detector metric, library compute_energy for the energy metric)"]
 TECHNIQUE = "deterministic simulation: deadline/timer check of the real loop against the first-stop step derived from the driver-stepped trajectory"
 LEVEL_TEXT = "Seeded exploration over scenes x condition parameters; the halting step and the halted state are compared with the plain trajectory for every generated condition."
 LEVEL_NOTE = "float64 CPU; T <= 40; min_steps > max_steps resolved in favour of the maximum (as the statement orders them)"
@@ -87,12 +87,39 @@ def _spectral_distance(readings, t, spp, prev, T):
     return float(np.linalg.norm(np.abs(np.fft.rfft(ref, n=spp)) - np.abs(np.fft.rfft(last, n=spp))))
 
 
+def _reduced_scales(spec, state):
+    """Comparison scale of the reduced detector record: the same reduction applied to |x_i| (uniform grid: constant weights)."""
+    from fdsim import driver as dr
+
+    D = dr.detectors_np(state)
+    det = spec["detectors"][0]
+    out = {}
+    for k, v in D.items():
+        if not k.startswith("dconv_sp/") or not v.size:
+            continue
+        a = np.abs(v).reshape(v.shape[0], -1)
+        if det["kind"] == "field":
+            sc_ = float(a.mean(axis=1).max())  # reduced field = volume-weighted mean
+        else:
+            sc_ = float(a.sum(axis=1).max()) * specgen.SPACING**2  # reduced flux = area-weighted sum
+        key = "d/dconv/" + k.split("/", 1)[1]
+        own = float(np.max(np.abs(D[key.removeprefix("d/")]))) if key.removeprefix("d/") in D else 0.0
+        if np.isfinite(sc_) and sc_ > 0:
+            out[key] = max(sc_, own)
+    return out
+
+
 def execute(spec):
     import fdtdx
     import jax.numpy as jnp
     from fdtdx.fdtd.stop_conditions import DetectorConvergenceCondition, EnergyThresholdCondition
     from fdsim import scene as sc, driver as dr
 
+    # companion detector: same region / schedule, not reduced.  It only supplies the round-off scale of the reduced
+    # record (a float32 mean / sum over the box is accurate relative to sum|x_i|, not to the possibly cancelling net value)
+    det0 = spec["detectors"][0]
+    if det0["kind"] in ("field", "poynting"):
+        spec = {**spec, "detectors": [det0, {**det0, "name": "dconv_sp", "reduce": False}]}
     scn = sc.build_scene(spec)
     T = scn.T
     st = dr.Stepper(scn)
@@ -139,7 +166,12 @@ def execute(spec):
                 key0 = sorted(states[t][1].detector_states["dconv"])[0]
                 rd = np.array(states[t][1].detector_states["dconv"][key0])[:, 0].real
                 m = _spectral_distance(rd, t, spp, prev, T)
-            if abs(m - c["threshold"]) <= KNIFE * max(abs(c["threshold"]), 1e-300):
+            noise = 0.0
+            if c["kind"] == "convergence":
+                # float32 round-off of the reduced readings (relative to the reduction of |x_i|) carried through the DFT magnitudes
+                rsc = max([float(np.max(np.abs(rd))) if rd.size else 0.0] + list(_reduced_scales(spec, states[t]).values()))
+                noise = 2e-4 * 2 * spp * rsc
+            if abs(m - c["threshold"]) <= KNIFE * max(abs(c["threshold"]), 1e-300) + noise:
                 knife = True
                 break
             if m < c["threshold"]:
@@ -171,7 +203,7 @@ def execute(spec):
             mon = "stopped_after_max_steps" if t_stop > hard else "stopped_before_min_steps" if (t_stop < mn and t_stop < hard) else "wrong_stop_step"
             viol.append({"monitor": mon, **info})
             continue
-        d, k = dr.dict_rel_diff(dr.full_np(states[t_stop]), dr.full_np((t_stop, arr)))
+        d, k = dr.dict_rel_diff(dr.full_np(states[t_stop]), dr.full_np((t_stop, arr)), scales=_reduced_scales(spec, states[t_stop]))
         resid["state"] = max(resid["state"], d if np.isfinite(d) else 1e300)
         if not (d <= STATE_TOL):
             viol.append({"monitor": "stopped_state_differs_from_plain_run", "metric": "rel_diff", "value": d, "tolerance": STATE_TOL, "key": k, **info})
